@@ -87,7 +87,10 @@ package netpoll
 // onAccept: an accepted connection that survived init is given the untrack callback first, then stored, then handed to OnConnect/OnRequest;
 // one that did not survive is neither stored nor started
 //@ func (*server).onAccept
-//@   property C13
+//@   property C13 C15
+//@   note init hands the descriptor to the new connection (its netFD is a copy of the accepted one, its finalizer closes the number once):
+//@   note whatever init's outcome, onAccept itself never closes the accepted Conn (a second close hits a reused number, C15)
+//@   forbid invoke.Close
 //@   requires s != nil && conn != nil && (typeis(conn, *netFD) ==> conn#val != 0)
 //@   note global invariants (callback list, poller pool) hold whenever no manager/AddCloseCallback call is in progress on this goroutine; they are proved where they are changed (C05, C18)
 //@   assume cblist() && mbase(pollmanager) && (pollmanager.status == 2 ==> mgood(pollmanager)) && pollmanager.status != 1
